@@ -468,6 +468,13 @@ pub fn run_build(ctx: &mut Ctx, case: &Value) {
             }
             ctx.check_eq("C13", "String and SmallString build alike", "SmallString", &g, &o);
         }
+        // GenericPurl::new(type, name) is builder(type, name).build()
+        let p0 = &case["parts"];
+        if p0["ns"] == json!([]) && p0["ver"] == json!([]) && p0["sub"] == json!([]) && p0["quals"] == json!([]) {
+            let r = catch_unwind(AssertUnwindSafe(|| GenericPurl::<String>::new(st.clone(), from_cps(&p0["name"]))));
+            let o = outcome::<String, purl::ParseError>(r);
+            ctx.check_eq("C09", "GenericPurl::new equals builder().build()", "String", &g, &o);
+        }
         if ctx.samples.len() < 3 {
             ctx.samples.push(json!({"kind": "build", "type": st, "parts": case["parts"], "observed": g}));
         }
@@ -697,12 +704,23 @@ fn pairs_of(v: &Value) -> Vec<(String, String)> {
     v.as_array().map(|a| a.iter().map(|q| (from_cps(&q[0]), from_cps(&q[1]))).collect()).unwrap_or_default()
 }
 
+/// A typed qualifier whose declared key is invalid: inserting it is the documented panic.
+pub struct BadKey(pub String);
+impl purl::qualifiers::well_known::KnownQualifierKey for BadKey {
+    const KEY: &'static str = "!";
+}
+impl From<BadKey> for SmallStr {
+    fn from(v: BadKey) -> Self {
+        v.0.into()
+    }
+}
+
 /// One public call on a live collection; returns the spec-shaped result.
 pub fn apply_qop(q: &mut purl::Qualifiers, op: &Value) -> Value {
     use purl::qualifiers::well_known::{Checksum, RepositoryUrl};
     use purl::qualifiers::Entry;
     let name = op[0].as_str().unwrap_or("");
-    let nested = matches!(name, "try_insert_typed_checksum" | "try_from_iter");
+    let nested = matches!(name, "try_insert_typed_checksum" | "try_from_iter" | "insert_typed" | "remove_typed" | "get_typed");
     let k = if nested { String::new() } else { from_cps(&op[1]) };
     let v = from_cps(&op[2]);
     match name {
@@ -854,6 +872,48 @@ pub fn apply_qop(q: &mut purl::Qualifiers, op: &Value) -> Value {
                 opt_json(r.as_deref())
             }
         },
+        "insert_typed" | "remove_typed" | "get_typed" => {
+            use purl::qualifiers::well_known::{gem, maven, DownloadUrl, FileName, VcsUrl};
+            macro_rules! typed {
+                ($t:ty) => {
+                    match name {
+                        "insert_typed" => {
+                            q.insert_typed(<$t>::from(v.as_str()));
+                            json!({"unit": true})
+                        },
+                        "remove_typed" => {
+                            q.remove_typed::<$t>();
+                            json!({"unit": true})
+                        },
+                        _ => {
+                            let r = q.get_typed::<$t>();
+                            if q.contains_typed::<$t>() != r.is_some() {
+                                json!("contains_typed and get_typed disagree")
+                            } else {
+                                opt_json(r.as_deref())
+                            }
+                        },
+                    }
+                };
+            }
+            match op[1].as_str().unwrap_or("") {
+                "RepositoryUrl" => typed!(RepositoryUrl),
+                "DownloadUrl" => typed!(DownloadUrl),
+                "VcsUrl" => typed!(VcsUrl),
+                "FileName" => typed!(FileName),
+                "gem::Platform" => typed!(gem::Platform),
+                "maven::Classifier" => typed!(maven::Classifier),
+                "maven::Type" => typed!(maven::Type),
+                other => {
+                    eprintln!("unknown typed qualifier {:?}", other);
+                    std::process::exit(2);
+                },
+            }
+        },
+        "insert_typed_badkey" => {
+            q.insert_typed(BadKey(k));
+            json!({"unit": true})
+        },
         "try_get_typed_checksum" => match q.try_get_typed::<Checksum>() {
             Err(_) => qerr(),
             Ok(None) => json!({"ok": true, "some": false}),
@@ -904,10 +964,12 @@ fn qop_step(ctx: &mut Ctx, q: &mut purl::Qualifiers, op: &Value, exp_res: &Value
     };
     let documented = exp_res.get("panic").is_some();
     if res.get("panic").is_some() || documented {
-        ctx.check("C06", "panics exactly where documented (Index/IndexMut on an absent key)", "Qualifiers",
+        ctx.check("C06", "panics exactly where documented (Index/IndexMut on an absent key, typed insert with an invalid KEY)", "Qualifiers",
                   res.get("panic").is_some() == documented, exp_res, &res);
     }
-    ctx.check("C11", "returned value is what the reference map gives", "Qualifiers", &res == exp_res, exp_res, &res);
+    if !(documented && res.get("panic").is_some()) {
+        ctx.check("C11", "returned value is what the reference map gives", "Qualifiers", &res == exp_res, exp_res, &res);
+    }
     let post = quals_json(q);
     ctx.check("C11", "content after the call is what the reference map gives", "Qualifiers", &post == exp_post, exp_post, &post);
     let ex = quals_extras(q);
